@@ -26,11 +26,6 @@ instance (a : PLoc) : Decidable (WFP a) := by
         ⟨fun hh n hn => by cases hn; exact hh, fun hh => hh m rfl⟩
   infer_instance
 
-/-- F-C19j: `union` / `union_preserve_overlaps` test the parents only when the receiver has one -/
-def OneSidedParent (a b : PLoc) : Prop := a.2 = [] ∧ b.2 ≠ []
-
-instance (a b : PLoc) : Decidable (OneSidedParent a b) := by unfold OneSidedParent; infer_instance
-
 /-- the spec driver's numbering of `DistanceType` -/
 def distCode : DistType → Nat
   | .inner => 0
